@@ -12,39 +12,34 @@ From Snap.Cmd Require Import CmdModel CmdProofs.
 Import ListNotations.
 Local Open Scope N_scope.
 
-(* `fires` states each trigger as the property does; for TShortParity: min over levels of floor(size of the parity FILE /
-   block size) < used.  `fires_code` is what the code evaluates: for TShortParity it uses the size REPORTED by parity_size(),
-   which is the split size recorded in the content file whenever the content file records one ('Q' records: hash size other
-   than 16, or split parity), not the size of the file.
-
-   Full-strength statement (every trigger as the property states it, every array):
-       forall t o p, fires t p = true -> overridden t o = false ->
-         exitc Sync o p = ExRefused /\ forall e, In e (effects Sync o p) -> e = WLock \/ e = WLog
-   It is REFUTED by the faithful model (finding F-C14-short-parity-undetected-with-recorded-sizes): *)
-Theorem C14_interlock_refuses_refuted : exists t o p,
-  fires t p = true /\ overridden t o = false /\ exitc Sync o p = ExOk /\ In (RszParity 1) (effects Sync o p).
-Proof. exact interlock_refuses_refuted. Qed.
-Print Assumptions C14_interlock_refuses_refuted.
-
-(* ... and holds with the exact extra hypothesis: for the short-parity trigger, parity_size reports the size on disk
-   (no recorded split sizes, or recorded sizes equal to the files) *)
-Theorem C14_interlock_refuses_partial : forall t o p, (t = TShortParity -> p_parity_blocks p = p_parity_disk_blocks p) ->
-  fires t p = true -> overridden t o = false ->
+(* trigger true and override false: sync stops with a failing status, having emitted nothing but WLock / WLog.
+   TShortParity is evaluated on the parity really present in the files (parity_valid_size, fix 03a455c), in every content
+   format: p_parity_blocks is valid_size / block size of each level. *)
+Theorem C14_interlock_refuses : forall t o p, fires t p = true -> overridden t o = false ->
   exitc Sync o p = ExRefused /\ forall e, In e (effects Sync o p) -> e = WLock \/ e = WLog.
-Proof. exact interlock_refuses_partial. Qed.
-Print Assumptions C14_interlock_refuses_partial.
+Proof. exact interlock_refuses. Qed.
+Print Assumptions C14_interlock_refuses.
 
-(* the triggers as the code evaluates them: trigger true and override false: sync stops with a failing status, having
-   emitted nothing but WLock / WLog *)
-Theorem C14_interlock_refuses_as_coded : forall t o p, fires_code t p = true -> overridden t o = false ->
-  exitc Sync o p = ExRefused /\ forall e, In e (effects Sync o p) -> e = WLock \/ e = WLog.
-Proof. exact interlock_refuses_code. Qed.
-Print Assumptions C14_interlock_refuses_as_coded.
+(* the parity really present never exceeds what the content file records, and equals it when no split file is shorter than
+   recorded; the rule used before 03a455c (recorded sizes) could not see a truncated or recreated file *)
+Theorem C14_valid_size_le_recorded : forall sp, valid_size sp <= recorded_size sp.
+Proof. exact valid_size_le_recorded. Qed.
+Print Assumptions C14_valid_size_le_recorded.
+Theorem C14_valid_size_all_present : forall sp,
+  (forall r d, In (Some r, d) sp -> r <= d) -> valid_size sp = recorded_size sp.
+Proof. exact valid_size_all_present. Qed.
+Print Assumptions C14_valid_size_all_present.
+Example C14_example_valid_size :
+  valid_blocks 1024 [(Some 9216, 2048)] = 2 /\ recorded_size [(Some 9216, 2048)] / 1024 = 9
+  /\ valid_blocks 1024 [(Some 4096, 4096); (Some 5120, 1024); (Some 2048, 2048)] = 5
+  /\ valid_blocks 1024 [(Some 4096, 0); (Some 5120, 5120)] = 0
+  /\ valid_blocks 1024 [(None, 7168)] = 7.
+Proof. exact ex_valid_size. Qed.
 
 (* every trigger false or overridden (and the sync can start at all: options compatible, configuration and content
    readable, start block inside the array, parity files accessible): sync is not refused *)
 Theorem C14_interlock_overridden : forall o p, sync_can_start o p ->
-  (forall t, fires_code t p = true -> overridden t o = true) -> exitc Sync o p <> ExRefused.
+  (forall t, fires t p = true -> overridden t o = true) -> exitc Sync o p <> ExRefused.
 Proof. exact interlock_overridden. Qed.
 Print Assumptions C14_interlock_overridden.
 
@@ -109,14 +104,10 @@ Proof. exact ex_short_refused. Qed.
 Example C14_example_all_overridden :
   exitc Sync o_force (p0 [ds_zero1; ds_gone] [9; 6]) = ExOk /\
   sync_can_start o_force (p0 [ds_zero1; ds_gone] [9; 6]) /\
-  (forall t, fires_code t (p0 [ds_zero1; ds_gone] [9; 6]) = true -> overridden t o_force = true) /\
+  (forall t, fires t (p0 [ds_zero1; ds_gone] [9; 6]) = true -> overridden t o_force = true) /\
   fires TEmpty (p0 [ds_zero1; ds_gone] [9; 6]) = true /\ fires TZero (p0 [ds_zero1; ds_gone] [9; 6]) = true /\
   fires TShortParity (p0 [ds_zero1; ds_gone] [9; 6]) = true.
 Proof. exact ex_overridden_proceeds. Qed.
-Example C14_example_partial_hypothesis :
-  p_parity_blocks (p0 [ds_ok; ds_ok] [9; 6]) = p_parity_disk_blocks (p0 [ds_ok; ds_ok] [9; 6])
-  /\ fires TShortParity (p0 [ds_ok; ds_ok] [9; 6]) = true /\ overridden TShortParity o0 = false.
-Proof. exact ex_partial_hyp. Qed.
 Example C14_example_lock_trace :
   snd (lock_step (lock_run None [Try 1]) (Try 2)) = false /\ snd (lock_step (lock_run None [Try 1; Finish 1]) (Try 2)) = true.
 Proof. exact ex_lock_trace. Qed.
